@@ -85,6 +85,7 @@ def run(S):
     S.require('R-SNAP', 'non-retry returns of scan_border', nr, 8)
     S.require('R-RBK', 'retry edges of scan_border', nt, 4)
     rule_rbk_layer(S)
+    rule_end_layer(S)
 
 
 def rule_rbk_layer(S):
@@ -146,6 +147,51 @@ def rule_rbk_layer(S):
                  'the layer scan retries from its root without rolling back to the sizes recorded at entry',
                  loc=e['loc'], path=e['path'])
     S.require('R-RBK', 'retry edges of the layer scan', n, 2)
+
+
+def rule_end_layer(S):
+    """R-END: a scan level reports success only after a border visit ended with OK_SCAN_END."""
+    facts = S.facts()
+    from yk.flow import Explorer
+    S.rule('R-END', 'layer scan<V>(base_node*, ...): `return status::OK` is reached only with the result of the last '
+                    'scan_border call established to be OK_SCAN_END (a layer is never reported scanned without having '
+                    'been scanned: a deleted-but-still-root interior layer root is being collapsed and its surviving '
+                    'child holds keys)')
+    fns = facts.some(Y + 'scan', lambda f: f.params and f.params[0]['type'].startswith('yakushima::base_node *'))
+    n = 0
+    for f in fns:
+        exits = {}
+        is_status = lambda t: (t or '').replace('const ', '').strip() == 'yakushima::status'
+
+        def step(ctx, nd, st):
+            var, fs = st
+            fs = R.track_assign(f, nd, fs, facts, tracked_types=(is_status,))
+            if is_call(nd, cq=Y + 'scan_border'):
+                return (R.assigned_var(f, nd), fs)
+            if nd['k'] == 'ReturnStmt':
+                if R.ret_const(f, nd, fs) == Y + 'status::OK':
+                    trail = R.branch_trail(ctx.ex, ctx.key, f, 1)
+                    e = exits.setdefault('%s after [%s]' % (R.ret_desc(f, nd), '; '.join(trail)),
+                                         {'ok': True, 'loc': short_loc(nd), 'path': None})
+                    good = var is not None and R.facts_get(fs, var) == 'in:' + Y + 'status::OK_SCAN_END'
+                    if not good:
+                        e['ok'] = False
+                        e['path'] = e['path'] or ctx.witness()
+                return None
+            return (var, fs)
+
+        def branch(ctx, blk, idx, st):
+            fs2 = R.refine(f, blk, idx, st[1], tracked=is_status)
+            return None if fs2 is None else (st[0], fs2)
+
+        Explorer(f, step, branch).run((None, frozenset()))
+        for site, e in sorted(exits.items()):
+            n += 1
+            S.ob('R-END', 'yakushima::scan<%s>(base_node*)' % f.targs, site, e['ok'],
+                 'success only after a border visit ended the range' if e['ok'] else
+                 'the layer scan reports OK without (or not as the outcome of) scanning a border of that layer: keys '
+                 'of the layer are silently missing from the result and from the node set', loc=e['loc'], path=e['path'])
+    S.require('R-END', 'OK exits of the layer scan', n, 2)
 
 
 def _cyclic_blocks(f):
